@@ -29,6 +29,7 @@ func c05Parent(c *mon.Ctx) {
 	sh := shards("plain", "pairs", 2)
 	sh = append(sh, shards("plain", "catalogue", 2)...)
 	sh = append(sh, shards("plain", "random", 8, "-n", fmt.Sprint(per))...)
+	sh = append(sh, shards("plain", "compound", 1)...)
 	sh = append(sh, shards("plain", "lexerr", 1, "-n", fmt.Sprint(per))...)
 	sh = append(sh, shards("plain", "parserr", 4, "-n", fmt.Sprint(per))...)
 	res := c.RunShards(sh, 16)
@@ -203,6 +204,78 @@ func c05Child(a *ChildArgs) {
 				lexgen.Rot = r.Intn(1000)
 				t := lexgen.Build(lex, seps, nil)
 				c05CheckText(a, "C05/random", t)
+			}
+		}
+	case "compound":
+		// words that open a compound keyword: merged with the next word (one token spanning both), or left alone
+		// (their own span) when what follows does not complete a compound, whatever separates the two
+		compounds := map[string]bool{"GROUP BY": true, "ORDER BY": true, "LEFT JOIN": true, "RIGHT JOIN": true, "INNER JOIN": true, "OUTER JOIN": true, "FULL JOIN": true, "CROSS JOIN": true, "GROUPING SETS": true}
+		starts := []string{"GROUP", "ORDER", "LEFT", "RIGHT", "INNER", "OUTER", "CROSS", "NATURAL", "FULL", "GROUPING"}
+		nexts := []string{"BY", "JOIN", "SETS", "OUTER", "x", ",", "(", ""}
+		kwl := func(s string) lexgen.Lexeme {
+			if s == "," || s == "(" {
+				return lexgen.Lexeme{Class: lexgen.Op, Text: s, Value: s}
+			}
+			return lexgen.Lexeme{Class: lexgen.Word, Text: s, Value: s, Keyword: s != "x"}
+		}
+		for wi, w1 := range starts {
+			for ni, nx := range nexts {
+				for sep := 1; sep < len(lexgen.SepNames); sep++ {
+					for cs := 0; cs < 2; cs++ {
+						lexgen.Rot = wi*7 + ni*3 + sep
+						kc := func(i int, s string) string {
+							if cs == 1 {
+								return strings.ToLower(s)
+							}
+							return s
+						}
+						lex := []lexgen.Lexeme{ident("t"), kwl(w1)}
+						seps := []int{0, 1, sep}
+						if nx != "" {
+							lex = append(lex, kwl(nx), ident("c"))
+							seps = []int{0, 1, sep, 1, sep % 7}
+						}
+						t := lexgen.Build(lex, seps, kc)
+						a.Rec.Count("evaluations", 1)
+						a.Rec.Distinct("texts", t.S)
+						tk := mustTokenizer()
+						toks, err := tk.Tokenize([]byte(t.S))
+						if err != nil {
+							continue
+						}
+						lines := linesOf(t.S)
+						wit := map[string]interface{}{"text": t.S}
+						merged := nx != "" && compounds[w1+" "+strings.ToUpper(nx)]
+						id := fmt.Sprintf("C05/compound/%s %s/%s", w1, nx, lexgen.SepNames[sep])
+						// expected spans
+						type span struct{ l0, c0, l1, c1 int }
+						var want []span
+						for i, lx := range t.Lexemes {
+							if merged && i == 2 {
+								want[len(want)-1].l1, want[len(want)-1].c1 = lx.EndLine, lx.EndCol
+								continue
+							}
+							want = append(want, span{lx.Line, lx.Col, lx.EndLine, lx.EndCol})
+						}
+						if len(toks) != len(want)+1 {
+							continue // token-level questions are C04's
+						}
+						for i, w := range want {
+							what := fmt.Sprintf("token %d %q", i, toks[i].Token.Value)
+							c05CheckLoc(a, id+"/start", what+" start", toks[i].Start, w.l0, w.c0, lines, wit)
+							c05CheckLoc(a, id+"/end", what+" end", toks[i].End, w.l1, w.c1, lines, wit)
+							if i > 0 && locLess(toks[i].Start, toks[i-1].End) {
+								a.Rec.Viol(id+"/overlap", "end of one element never after the start of the next", fmt.Sprintf("%s starts at %v before the previous token's end %v", what, toks[i].Start, toks[i-1].End), wit)
+							}
+						}
+						if len(tk.Comments) == len(t.Comments) {
+							for i, c := range t.Comments {
+								c05CheckLoc(a, id+"/comment-start", fmt.Sprintf("comment %d", i), tk.Comments[i].Start, c.Line, c.Col, lines, wit)
+								c05CheckLoc(a, id+"/comment-end", fmt.Sprintf("comment %d", i), tk.Comments[i].End, c.EndLine, c.EndCol, lines, wit)
+							}
+						}
+					}
+				}
 			}
 		}
 	case "lexerr":
